@@ -91,6 +91,7 @@ class Controller:
         self.log = []
         self.suspended = False
         self.tracer = None
+        self.pid = os.getpid()
 
     def arm_interrupt(self, k):
         self.countdown = k
@@ -101,8 +102,8 @@ class Controller:
         self.countdown = None
 
     def hit(self, site, when):
-        if self.suspended:
-            return
+        if self.suspended or os.getpid() != self.pid:
+            return          # (child processes forked by the code under test are never interrupted)
         sim = self.sim
         if sim is not None and (sim.in_worker or sim.in_step):
             return                      # never inside a simulated worker process
